@@ -88,6 +88,8 @@ func init() {
 			}
 			col.Case(string(line), n, sample)
 		})
+		col.AddExtra("repeated_key_refused_by_the_value_assembler", int(replay.LateRefusalsAtValue))
+		col.AddExtra("repeated_key_refused_at_finish", int(replay.LateRefusalsAtFinish))
 		col.Print(os.Stdout)
 		return 0
 	})
